@@ -82,6 +82,7 @@ type RunSpec struct {
 	Race        bool                 `json:"race"` // native replays run with -race
 	Covers      []string             `json:"covers"`
 	FP          bool                 `json:"fp"`
+	Expect      string               `json:"expect"` // self-tests: a finding of this kind must be reported
 }
 
 type Spec struct {
@@ -440,6 +441,21 @@ func cmdRun(args []string) int {
 			groups[k] = append(groups[k], f)
 		}
 		sort.Strings(order)
+		if run.Expect != "" {
+			hit := false
+			for _, k := range order {
+				if groups[k][0].Kind == run.Expect {
+					hit = true
+				}
+			}
+			if hit {
+				say("EXPECTED-FINDING run=%s kind=%s reported as required", run.Name, run.Expect)
+			} else {
+				say("MISSING-EXPECTED-FINDING run=%s kind=%s: the engine failed to report it", run.Name, run.Expect)
+				vacuous++
+			}
+			continue
+		}
 		for gi, k := range order {
 			fsn := groups[k]
 			f0 := fsn[0]
